@@ -49,6 +49,14 @@ int main(int argc, char** argv)
 		  unsigned short units[] = { 'h', 0xE9, 'l', 'l', 'o', ' ', 0x20AC, '\r', '\n', 'l', 'i', 'n', 'e', '2', '\n', 'x' };
 		  for (int be = 0; be < 2; be++) { std::string t = be ? "\xFE\xFF" : "\xFF\xFE"; for (unsigned i = 0; i < sizeof(units) / 2; i++) { char lo = char(units[i] & 255), hi = char(units[i] >> 8); if (be) { t.push_back(hi); t.push_back(lo); } else { t.push_back(lo); t.push_back(hi); } }
 			put(t); String got = TextFile(P).text(); if (got != u8) { printf("REPRODUCED text() of a UTF-16%s file differs from the UTF-8 text (%d bytes, want %d)\n", be ? "BE" : "LE", got.length(), (int)strlen(u8)); return 1; } } }
+		// Directory::copy / File::copy for sizes around the 65536-byte block
+		{ const char* Q = "/tmp/vf_c17_battery.copy"; for (int n : { 0, 1, 65535, 65536, 65537, 65544, 131071, 131072, 131073, 200000 }) { ByteArray a(n); for (int i = 0; i < n; i++) a[i] = byte(i * 11 + (i >> 9)); { File f(P); f.put(a); f.close(); } remove(Q);
+			if (!Directory::copy(P, Q)) { printf("REPRODUCED Directory::copy of a %d-byte file fails\n", n); return 1; } ByteArray b = File(Q).content(); remove(Q);
+			if (b.length() != n || (n && memcmp(b.data(), a.data(), n) != 0)) { printf("REPRODUCED Directory::copy of a %d-byte file produced %d bytes\n", n, b.length()); return 1; } } }
+		// text() of files without a BOM whose first bytes resemble one
+		{ const char* starts[] = { "\xEF\xBB\xBB" "rest", "\xEF\xBB\xBE", "\xEF\xBB", "\xEF", "\xEF\xBBx-text", "\xFFx", "\xFE", "\xEF\xBB\xBF" "after-bom" };
+		  for (const char* st : starts) { std::string t = st; put(t); String got = TextFile(P).text(); std::string want = t.compare(0, 3, "\xEF\xBB\xBF") == 0 ? t.substr(3) : t;
+			if (std::string(*got, got.length()) != want) { printf("REPRODUCED text() of a %d-byte file starting %02x %02x %02x returns %d bytes, want %d\n", (int)t.size(), (unsigned char)t[0], t.size() > 1 ? (unsigned char)t[1] : 0, t.size() > 2 ? (unsigned char)t[2] : 0, got.length(), (int)want.size()); return 1; } } }
 		remove(P); printf("OK\n"); return 0;
 	}
 	return 2;
